@@ -3,15 +3,17 @@
 // looks the values up instead of modelling functions that are not correctly rounded.
 #include "sx.hpp"
 #include <vector>
+#include <mutex>
 std::vector<Sx> g_libm_log;
 bool g_libm_logging = false;
+static std::mutex g_libm_mutex;     // the MPI shim runs ranks as threads
 extern "C" {
 double __real_pow(double, double); float __real_powf(float, float); long double __real_powl(long double, long double);
 double __real_log(double); float __real_logf(float); long double __real_logl(long double);
 static void logpow(long double x, long double y, long double r)
-{ if (g_libm_logging) g_libm_log.push_back(Sx::list({Sx::sym("pow"), Sx::flt(x), Sx::flt(y), Sx::flt(r)})); }
+{ std::lock_guard<std::mutex> lock(g_libm_mutex); if (g_libm_logging) g_libm_log.push_back(Sx::list({Sx::sym("pow"), Sx::flt(x), Sx::flt(y), Sx::flt(r)})); }
 static void loglog(long double x, long double r)
-{ if (g_libm_logging) g_libm_log.push_back(Sx::list({Sx::sym("log"), Sx::flt(x), Sx::flt(r)})); }
+{ std::lock_guard<std::mutex> lock(g_libm_mutex); if (g_libm_logging) g_libm_log.push_back(Sx::list({Sx::sym("log"), Sx::flt(x), Sx::flt(r)})); }
 double __wrap_pow(double x, double y) { double r = __real_pow(x, y); logpow(x, y, r); return r; }
 float __wrap_powf(float x, float y) { float r = __real_powf(x, y); logpow(x, y, r); return r; }
 long double __wrap_powl(long double x, long double y) { long double r = __real_powl(x, y); logpow(x, y, r); return r; }
